@@ -120,11 +120,25 @@ private:
   std::vector<rlbox_transition_timing> transition_times;
 #endif
 
-  static inline RLBOX_SHARED_LOCK(sandbox_list_lock);
-  // The actual type of the vector is std::vector<rlbox_sandbox<T_Sbx>*>
-  // However clang 5, 6 have bugs where compilation seg-faults on this type
-  // So we just use this std::vector<void*>
-  static inline std::vector<void*> sandbox_list;
+  // The registry of live sandboxes and its lock are constructed on first use
+  // and never destroyed: static data members of a class template are
+  // initialised in no particular order relative to other objects with static
+  // storage duration, so a sandbox created by a namespace-scope initialiser
+  // (or destroyed by a static destructor) could otherwise run before (after)
+  // the registry's own lifetime
+  struct sandbox_registry
+  {
+    RLBOX_SHARED_LOCK(lock);
+    // The actual type of the vector is std::vector<rlbox_sandbox<T_Sbx>*>
+    // However clang 5, 6 have bugs where compilation seg-faults on this type
+    // So we just use this std::vector<void*>
+    std::vector<void*> list;
+  };
+  static sandbox_registry& get_sandbox_registry()
+  {
+    static sandbox_registry* registry = new sandbox_registry();
+    return *registry;
+  }
 
   RLBOX_SHARED_LOCK(func_ptr_cache_lock);
   std::map<std::string, void*> func_ptr_map;
@@ -366,8 +380,9 @@ private:
       example_sandbox_ptr != nullptr,
       "Internal error: received a null example pointer. Please file a bug.");
 
-    RLBOX_ACQUIRE_SHARED_GUARD(lock, sandbox_list_lock);
-    for (auto sandbox_v : sandbox_list) {
+    auto& registry = get_sandbox_registry();
+    RLBOX_ACQUIRE_SHARED_GUARD(lock, registry.lock);
+    for (auto sandbox_v : registry.list) {
       auto sandbox = reinterpret_cast<rlbox_sandbox<T_Sbx>*>(sandbox_v);
       if (sandbox->is_pointer_in_sandbox_memory(example_sandbox_ptr)) {
         return sandbox;
@@ -448,8 +463,9 @@ public:
 
     if (created) {
       sandbox_created.store(Sandbox_Status::CREATED);
-      RLBOX_ACQUIRE_UNIQUE_GUARD(lock, sandbox_list_lock);
-      sandbox_list.push_back(this);
+      auto& registry = get_sandbox_registry();
+      RLBOX_ACQUIRE_UNIQUE_GUARD(lock, registry.lock);
+      registry.list.push_back(this);
     }
 
     return created;
@@ -476,7 +492,9 @@ public:
       "destroyed concurrently");
 
     {
-      RLBOX_ACQUIRE_UNIQUE_GUARD(lock, sandbox_list_lock);
+      auto& registry = get_sandbox_registry();
+      RLBOX_ACQUIRE_UNIQUE_GUARD(lock, registry.lock);
+      auto& sandbox_list = registry.list;
       auto el_ref = std::find(sandbox_list.begin(), sandbox_list.end(), this);
       detail::dynamic_check(
         el_ref != sandbox_list.end(),
